@@ -5,7 +5,7 @@ from vlib import Check, tlc_mc, run_harness, tlc_validate, workdir, require_acti
 CLASSES = {
     "C05": {"status", "headers", "body", "log", "applied", "attribution", "script_mismatch", "panic", "trace_rejected"},
     "C06": {"handoff_decode", "handoff_reserialise", "handoff_behaviour", "request_json_roundtrip", "panic", "trace_rejected"},
-    "C11": {"order_permutation", "order_insertion", "panic", "trace_rejected"},
+    "C11": {"order_permutation", "order_insertion", "rebuild_differs", "panic", "trace_rejected"},
 }
 CFGS = {
     ("C05", "quick"): ["MC_Action_quickA.cfg", "MC_Action_quickB.cfg", "MC_Action_quickE.cfg"],
@@ -50,6 +50,10 @@ def run_prop(prop, tier):
     if prop == "C06":
         import p_router
         p_router.router_part(c, wd, "C06", tier)
+    if prop == "C11":
+        # "rebuilding the router yields the same action": histories with updates that move a rule to another bucket
+        import p_router
+        p_router.router_part(c, wd, "C11", tier)
     c.assumptions = ["rule effects range over the pools of MC_Action.tla; response codes probed: 0, 200, 404, 500",
                      "applied-rule lists are compared as sets (the property does not fix their order)",
                      "serialised actions are compared through a 64-bit FNV hash recorded by the harness"]
